@@ -100,11 +100,15 @@ def gen(rng, tier):
           ops.append({'op': 'call', 'f': s['name'], 'scope': rng.choice(SCOPES),
                       'kw': kw})
         elif r < 0.65:
-          ops.append({'op': 'read'})
+          # (both forms of the read)
+          ops.append({'op': 'read', 'prov': rng.random() < 0.3})
         else:
           u = rng.choice(users)
           ops.append({'op': 'use', 'u': u['name'],
-                      'scope': rng.choice(['', 's1'])})
+                      'scope': rng.choice(['', 's1']),
+                      # through the reference, or by asking for the singleton
+                      # of that key directly
+                      'direct': rng.random() < 0.3})
       threads.append({'ops': ops})
     r = rng.random()
     if r < 0.08:
@@ -241,6 +245,7 @@ def _execute(case, mode, length_hints=None):
   for pi, phase in enumerate(case['phases']):
     state['phase'] = pi
     state['faults_left'] = cf['times'] if cf else 0
+    fired_before = state['faults_fired']
     per_thread = []
     reads = []
     deliveries = []   # (key, serial, tid)
@@ -267,14 +272,25 @@ def _execute(case, mode, length_hints=None):
                       getattr(v, 'extra', None):
                     pass
             elif op['op'] == 'read':
-              text = gin.operative_config_str()
+              if op.get('prov'):
+                text = gin.operative_config_str(show_provenance=True)
+              else:
+                text = gin.operative_config_str()
               with s.atomic():
                 reads.append((ti, oi, text))
                 res.append(('read', oi))
             elif op['op'] == 'use':
               scope = [op['scope']] if op['scope'] else None
-              with gin.config_scope(scope):
-                got = objs[op['u']]()
+              if op.get('direct'):
+                # the constructor runs under the key's scope here as well
+                def _ctor(key=user_key[op['u']]):
+                  with gin.config_scope([key]):
+                    return objs['mk']()
+                got = {'obj': gin.config.singleton_value(user_key[op['u']],
+                                                         _ctor)}
+              else:
+                with gin.config_scope(scope):
+                  got = objs[op['u']]()
               with s.atomic():
                 tok = got['obj']
                 serial = getattr(tok, 'serial', None) or repr(tok)
@@ -314,7 +330,8 @@ def _execute(case, mode, length_hints=None):
       final_err = '%s: %s' % (type(e).__name__, e)
     out['phases'].append({'per_thread': per_thread, 'reads': reads,
                           'deliveries': deliveries, 'final': final,
-                          'final_err': final_err, 'thread_exc': thread_exc})
+                          'final_err': final_err, 'thread_exc': thread_exc,
+                          'faults_fired': state['faults_fired'] - fired_before})
     out['yields'].append(s.yields)
     out['records'].append(s.record())
     out['switches'] += len(s.switch_log)
@@ -371,8 +388,20 @@ def run(case):
         inconclusive = True
     if b['thread_exc'] and not a['thread_exc']:
       v('C18.no_fail', ['thread-died'], 'phase %d: %r' % (pi, b['thread_exc']))
-    # (3) final record equals the sequential result.
-    if b['final_err'] and not a['final_err']:
+    # (3) final record equals the sequential result.  An injected constructor
+    # fault lands in whichever call happens to construct first, and the failed
+    # call leaves a different trace than a completed one: with faults the record
+    # is compared with the sequential one only for its form (it parses), not
+    # for equality.
+    faulted = bool(a.get('faults_fired') or b.get('faults_fired'))
+    if faulted:
+      try:
+        if b['final'] is not None:
+          parse_statements(b['final'])
+      except Exception as e:  # pylint: disable=broad-except
+        v('C18.read_parses', ['final', type(e).__name__],
+          'phase %d: final operative_config_str() does not parse: %s' % (pi, e))
+    elif b['final_err'] and not a['final_err']:
       v('C18.final_equal', ['final-read-raises'],
         'phase %d: final operative_config_str() raised %s' % (pi, b['final_err']))
     elif a['final'] is not None and a['final'] != b['final']:
@@ -395,7 +424,7 @@ def run(case):
           'does not parse (%s: %s):\n%s' % (pi, ti, oi, type(e).__name__, e,
                                             text))
         continue
-      if final_set is not None and not st <= final_set:
+      if final_set is not None and not faulted and not st <= final_set:
         v('C18.read_consistent', ['binding-not-in-final'],
           'phase %d thread %d op %d: read shows %r which the final sequential '
           'record does not contain' % (pi, ti, oi, sorted(st - final_set)[:3]))
